@@ -222,6 +222,19 @@ def run(run):
                 run.violation("reconstructor:end-to-end-duplicate-sensor:unequal-sub-aperture-counts", dict(duplicate_of=which, vignetted=vg, max_dev=dev,
                               asymmetry=float(np.abs(Cv - Cv.T).max())), dict(kind="e2e", which=which, vignetted=vg))
                 break
+    # profile tables with MORE entries than n_layers (only the first n_layers are the atmosphere): same matrix, same reconstructor as with
+    # truncated tables, single-process and pool
+    for thr in (1, 2):
+        dev_a, cm_a = end_to_end(sc, 1, 0.0, thr, False)
+        n = 4
+        cm_l = sc.CovarianceMatrix(cm_a.n_wfs, cm_a.pupil_masks, cm_a.telescope_diameter, cm_a.subap_diameters, cm_a.gs_altitudes, cm_a.gs_positions, cm_a.wfs_wavelengths,
+                                   2, np.array([0.0, 7000.0, 11000.0, 15000.0, 3000.0]), np.array([0.2, 0.35, 0.1, 0.1, 0.1]), np.array([25.0, 30.0, 20.0, 20.0, 20.0]), threads=thr)
+        Ml = np.asarray(cm_l.make_covariance_matrix(), float)
+        Ma = np.asarray(cm_a.covariance_matrix, float)
+        e2e.append(dict(tables_longer_than_n_layers=True, threads=thr))
+        if Ml.shape != Ma.shape or not np.array_equal(Ml, Ma):
+            run.violation("reconstructor:end-to-end:layers-beyond-n_layers-enter-the-matrix", dict(threads=thr, max_rel=float(np.abs(Ml - Ma).max() / np.abs(Ma).max()) if Ml.shape == Ma.shape else None),
+                          dict(kind="longtables", threads=thr))
     # guide stars ON the coordinate axes of the field (one direction component exactly zero) are directions like any other
     for which in (0, 1, 2):
         dev, cmo = end_to_end(sc, which, 0.0, 1, False, off_pos=[[12.0, 0.0], [0.0, 9.0], [-11.0, 0.0]])
